@@ -8,13 +8,20 @@ CONSTANTS MaxSeg, MaxSegImage
 
 NoDev == {}
 SeqsUpTo(n) == UNION {[1..m -> Seg] : m \in 0..n}
-NamesUpTo(n, A) == {[abs |-> a, segs |-> s] : a \in A, s \in SeqsUpTo(n)}
+NamesUpTo(n, A) == {[abs |-> a, segs |-> s, look |-> "ascii"] : a \in A, s \in SeqsUpTo(n)}
+\* names spelled with characters that only LOOK like separators and dots (over the segments where that matters)
+LookKinds == {"fw", "fwl", "fwa", "bs", "div", "big", "lig", "over"}
+LookSeg == {"dd", "d", "e", "dec", "zz", "sib"}
+LookNames == {[abs |-> a, segs |-> s, look |-> l] :
+                a \in BOOLEAN, l \in LookKinds, s \in UNION {[1..m -> LookSeg] : m \in 0..MaxSegImage}}
 AllNames == NamesUpTo(MaxSeg, {FALSE})
 AllCMapSites == {"enc", "cmapname", "usecmap", "regord"}
 NoSites == {}
 IC(i, d) == [init |-> i, draws |-> d, ext |-> "bmp", src |-> "xobj"]
 AllImageCases == {IC(i, d) : i \in SUBSET {-1, 0, 1}, d \in 1..2}
 FewImageCases == {IC({}, 2), IC({-1, 1}, 2)}
+LookImageCases == {IC({}, 1), IC({-1}, 2)}
+LookImageCasesQuick == {IC({}, 1)}
 \* every way the image dictionary can fill the extension x XObject / inline image x one or two exports
 ExtKinds == {"raw", "neg", "csill", "filterill", "illclean", "lead1", "mid1", "leadW"}
 ExtImageCases == {[init |-> {}, draws |-> d, ext |-> e, src |-> s] : d \in 1..2, e \in ExtKinds, s \in {"xobj", "inline"}}
